@@ -1,4 +1,7 @@
+#[cfg(not(feature = "verif"))]
 use std::sync::{Arc, Condvar, Mutex};
+#[cfg(feature = "verif")]
+use crate::verif::sync::{Arc, Condvar, Mutex};
 use tonic::{Code, Request, Response, Status};
 use triggered::Trigger;
 
